@@ -41,7 +41,11 @@ func c01GenParkOps(r *vRand, n int) []string {
 	for i := 0; i < n; i++ {
 		switch k := r.Intn(24); {
 		case k < 6 && !ffOutstanding():
-			ops = append(ops, "e"+strconv.Itoa(nextID))
+			if r.Intn(5) == 0 {
+				ops = append(ops, "u"+strconv.Itoa(nextID)) // unsampled span
+			} else {
+				ops = append(ops, "e"+strconv.Itoa(nextID))
+			}
 			nextID++
 		case k < 10 && !ffOutstanding():
 			ops = append(ops, "p"+strconv.Itoa(nextID))
@@ -66,6 +70,8 @@ func c01GenParkOps(r *vRand, n int) []string {
 		case k < 22 && !sdDone:
 			ops = append(ops, "sp")
 			sdParked, sdDone = true, true
+		case k < 22 && sdDone:
+			ops = append(ops, "s") // a further Shutdown caller: waits in stopOnce.Do while the first is parked / draining
 		case k < 23 && sdParked:
 			ops = append(ops, "sr")
 			sdParked = false
